@@ -309,18 +309,22 @@ def checks(tier):
     ops = ("pack_loose", "repack", "gc0", "gc_default")
     enc = ["dulwich.object_store.DiskObjectStore.get_raw/_update_pack_cache/_iter_loose/_get_loose_object",
            "dulwich.object_store.PackBasedObjectStore.pack_loose_objects/repack", "dulwich.gc.garbage_collect", "dulwich.pack.Pack"]
+    por = ["partial-order reduction: the reader's observations change only at the maintenance actor's create/rename/remove "
+           "calls, so only those are its preemption points"]
+    bound_1 = ("graph of 2 commits (branch, tag ref, HEAD attached), history and content objects each loose / packed / both, "
+               "optional multi-pack-index; a reader (%s) reads all reachable objects while %s runs; 1 preemption at a symbolic "
+               "position: any of the reader's first 40 file-system calls (reads included) or any of the maintenance actor's "
+               "first 64 calls that create, rename or remove a directory entry")
     return _b10(tier) + [
         KCheck("C10d.concurrent_reader_1", h_concurrent_reader,
-               parts=[{"op": o, "first": f, "warm": w, "kmax": 64} for o in (ops if tier == "thorough" else ops[:3]) for f in (0, 1)
-                      for w in ((0, 1, 2) if tier == "thorough" else (0, 2))], encoded=enc,
-               bounds="graph of 2 commits (branch, tag ref, HEAD attached), history and content objects each loose / packed / both, "
-                      "optional multi-pack-index; a reader (cold, or one object already read; thorough: also pack list loaded) reads "
-                      "all reachable objects while pack_loose_objects / repack / gc without grace (thorough: also default gc) "
-                      "runs; 1 preemption at a symbolic position: any of the reader's first 40 file-system calls (reads "
-                      "included) or any of the maintenance actor's first 64 calls that create, rename or remove a directory entry",
-               outside="2 preemptions (thorough); alternates; several readers",
-               assumptions=["partial-order reduction: the reader's observations change only at the maintenance actor's "
-                            "create/rename/remove calls, so only those are its preemption points"], time_budget=2400, tiers=q),
+               parts=[{"op": o, "first": f, "warm": w, "kmax": 64} for o in ops[:3] for f in (0, 1) for w in (0, 2)], encoded=enc,
+               bounds=bound_1 % ("cold, or one object already read", "pack_loose_objects / repack / gc without grace"),
+               outside="2 preemptions (thorough); alternates; several readers", assumptions=por, time_budget=2400, tiers=("quick",)),
+        KCheck("C10d.concurrent_reader_1t", h_concurrent_reader,
+               parts=[{"op": o, "first": f, "warm": w, "kmax": 64} for o in ops for f in (0, 1) for w in (0, 1, 2)], encoded=enc,
+               bounds=bound_1 % ("cold, pack list loaded, or one object already read", "pack_loose_objects / repack / gc without "
+                                 "grace / default gc"),
+               outside="alternates; several readers", assumptions=por, time_budget=2400, tiers=("thorough",)),
         KCheck("C10d.concurrent_reader", h_concurrent_reader,
                parts=[{"op": o, "two": True, "first": f, "warm": w} for o in ("pack_loose", "repack") for f in (0, 1) for w in (0, 2)],
                encoded=enc,
